@@ -317,7 +317,13 @@ def check_property(prop, tier="quick", seed=0, jobs=None, only=None, write_evide
         if sym["status"] == "ok" and sym["clauses"] and not clause_fail:
             n_clauses += len(sym["clauses"])
             n_discharged += len(sym["clauses"])
-            if num_fail:
+            if num_fail and r.get("bounded") and str(r["bounded"]).startswith("exhaustive"):
+                # a bounded stand-in is DECIDED by the exhaustive enumeration on the real function (numeric world): a failing
+                # case is a violation of the callee's contract, with the case as its replay
+                nr, c = num_fail[0]
+                n_discharged -= 1
+                violations.append((oid, c["clause"], c.get("detail", ""), (nr, c)))
+            elif num_fail:
                 # proof says equal, real code on real jax disagrees: shim/kernel non-conformance -> checker failure
                 conformance_fail.append((oid, num_fail[0][1]))
             if len(samples) < 6:
